@@ -197,6 +197,28 @@ def match_known(entries: list[dict], sig: str, case=None) -> dict | None:
 # parent side
 
 
+def _case_worker(args):
+	modname, case = args
+	try:
+		env.setup()
+		import importlib
+		mod = importlib.import_module(modname)
+		return [tuple(f) for f in mod.replay(case)]
+	except BaseException:
+		return traceback.format_exc()
+
+
+def _run_cases(modname: str, cases: list, procs: int) -> list:
+	"""mod.replay(case) for every case, each in a forked worker; a string result is the traceback of a harness error."""
+	if not cases:
+		return []
+	if procs <= 1 or len(cases) == 1:
+		return [_case_worker((modname, c)) for c in cases]
+	mpctx = multiprocessing.get_context('fork')
+	with mpctx.Pool(procs) as pool:
+		return pool.map(_case_worker, [(modname, c) for c in cases], chunksize=1)
+
+
 def _worker(args) -> dict:
 	modname, prop, tier, seed, shard, nshards, budget, scratch, excluded = args
 	try:
@@ -335,41 +357,36 @@ def run_check(modname: str, tier: str, replay_path: str | None = None) -> int:
 	known_lines: list[str] = []
 
 	with env.Scratch(prop) as scratch:
-		# 1. replay tier: saved counterexamples first (regressions of seeded / fixed defects)
-		replayed = 0
+		# 1. + 2. saved counterexamples (regressions of seeded / fixed defects) and probes of the listed findings, in parallel processes
+		jobs: list[tuple[str, str, dict]] = []
 		for path in saved_replays(prop):
 			with open(path) as f:
-				rep = json.load(f)
-			try:
-				fails = mod.replay(rep['case'])
-			except Exception:
-				print('HARNESS-ERROR: replay raised for', path)
-				traceback.print_exc()
-				return EXIT_HARNESS
-			replayed += 1
-			for sig, detail in fails:
-				k = match_known(known, sig, rep['case'])
-				if k is None:
-					violations.append({'sig': sig, 'detail': detail, 'case': rep['case'], 'path': path})
-
-		# 2. probes of known findings (print KNOWN-FINDING only while they still reproduce)
+				jobs.append(('replay', path, json.load(f)['case']))
 		for e in known:
-			if e.get('status') != 'known' or 'reproducer' not in e:
-				continue
-			try:
-				fails = mod.replay(e['reproducer'])
-			except Exception:
-				print('HARNESS-ERROR: known-finding probe raised for', e.get('id'))
-				traceback.print_exc()
+			if e.get('status') == 'known' and 'reproducer' in e:
+				jobs.append(('probe', e['id'], e['reproducer']))
+		outcomes = _run_cases(modname, [j[2] for j in jobs], min(int(os.environ.get('VERIF_SHARDS', 16)), max(1, len(jobs))))
+		replayed = 0
+		for (kind, ident, case), fails in zip(jobs, outcomes):
+			if isinstance(fails, str):
+				print(f'HARNESS-ERROR: {"replay" if kind == "replay" else "known-finding probe"} raised for', ident)
+				print(fails)
 				return EXIT_HARNESS
-			hit = [f for f in fails if match_known([e], f[0], e['reproducer'])]
-			other = [f for f in fails if not match_known(known, f[0], e['reproducer'])]
-			if hit:
-				line = f"KNOWN-FINDING: property={prop} {e['id']}: {e['description']}"
-				known_lines.append(line)
-				print(line)
-			for sig, detail in other:
-				violations.append({'sig': sig, 'detail': detail, 'case': e['reproducer']})
+			if kind == 'replay':
+				replayed += 1
+				for sig, detail in fails:
+					if match_known(known, sig, case) is None:
+						violations.append({'sig': sig, 'detail': detail, 'case': case, 'path': ident})
+			else:
+				e = next(x for x in known if x.get('id') == ident)
+				hit = [f for f in fails if match_known([e], f[0], case)]
+				other = [f for f in fails if not match_known(known, f[0], case)]
+				if hit:  # KNOWN-FINDING is printed only while the finding still reproduces
+					line = f"KNOWN-FINDING: property={prop} {e['id']}: {e['description']}"
+					known_lines.append(line)
+					print(line)
+				for sig, detail in other:
+					violations.append({'sig': sig, 'detail': detail, 'case': case})
 
 		# 3. the generated campaign, sharded
 		args = [(modname, prop, tier, seed, i, nshards, budget, scratch.path, excluded) for i in range(nshards)]
